@@ -281,6 +281,13 @@ def run(pid, tier, seed, workers=None, chunk=None):
     }
     for k, val in total.counters.items():
         cov[k] = val
+    if not os.environ.get('FCVERIF_NO_ANCHORS'):
+        try:
+            from . import anchors
+            _worker_init(pid)
+            cov['anchor_coverage'] = anchors.measure(pid, mod, tier, seed)
+        except Exception as e:      # the vacuity report must never decide anything
+            cov['anchor_coverage'] = {'note': 'not measured: %s: %s' % (type(e).__name__, e)}
     if hashes:
         cov['states'] = len(hashes)
     if mod.LEVEL == 'model_checking':
